@@ -118,7 +118,9 @@ def pep_obs(p):
     return out
 
 
-API_OPS = ("w_record", "w_canary", "w_inspect", "w_train", "flag")
+API_OPS = ("w_record", "w_canary", "w_inspect", "w_train", "flag",
+           # public maintenance API of ImmuneMemory / the watcher, as an operator would call it
+           "store", "import", "pruneold", "advance", "touch", "clearmem", "forget", "reset", "resetnc")
 
 
 def exact_trained_bounds(pep, tol):
@@ -150,6 +152,35 @@ def rounding_decides(real, exact, pep):
         if rb != eb and abs(rb - eb) <= Fraction(1, 10 ** 9) * max(1, abs(eb)) and dec(rb) != dec(eb):
             return True
     return False
+
+
+from datetime import timedelta
+
+CLOCK_BASE = datetime(2000, 1, 1)       # virtual time 0; earlier than the wall clock on purpose (see Model.imported_base)
+
+
+class VClock:
+    """What operon_ai.surveillance.memory sees as `datetime` during a case: utcnow() is the virtual
+    clock (seconds since CLOCK_BASE, moved only by 'advance' operations)."""
+
+    def __init__(self):
+        self.t = 0
+
+    def utcnow(self):
+        return CLOCK_BASE + timedelta(seconds=self.t)
+
+    now = utcnow
+
+    @staticmethod
+    def fromisoformat(x):
+        return datetime.fromisoformat(x)
+
+    @staticmethod
+    def secs(dt):
+        """virtual seconds of a timestamp; -1 for wall-clock timestamps (defaults the code filled in itself)"""
+        if dt.year >= 2020:
+            return -1
+        return int((dt - CLOCK_BASE).total_seconds())
 
 
 class Disp:
@@ -189,10 +220,14 @@ class C17(Check):
             "tolerance, train-then-inspect of the same window then probes around the trained bounds, real "
             "MHCDisplay windows (strings, times, errors, canaries); histories driven only through the public API of "
             "ImmuneSystem (record_observation, record_canary_result, train_agent, inspect, flag_agent) with window_size "
-            "3..10 that saturate, alternating good/bad stretches, inspections with and without a canary result in between. "
+            "3..10 that saturate, alternating good/bad stretches, inspections with and without a canary result in between; "
+            "memory maintenance interleaved with inspections (store at capacities 0..3 and 1000, import_signatures of exported "
+            "feeds, prune_old against a virtual clock, clock advances, recall/touch, del/clear of signatures), incl. the motif "
+            "threat remembered -> handled -> aged out / displaced -> seen once more. "
             "Exhaustive: every history of <=3 (quick) / <=4 (thorough) operations over an 8-letter alphabet with thresholds "
             "2/1, and every public-API history of <=5 / <=7 calls (good obs, bad obs, inspect, flag) on a window of size 2 "
-            "after training. non-trivial = at least one "
+            "after training, and every sequence of <=4 / <=5 maintenance operations between a remembered threat and its "
+            "reappearance. non-trivial = at least one "
             "inspection with a fingerprint that reaches the baseline check; distinct by case content")
     LEVEL_TEXT = ("Coq theorems over all profiles, fingerprints, thresholds, rule sets (arbitrary condition functions), "
                   "memories and operation histories about a hand-written model of BaselineProfile.check, TCell, "
@@ -224,7 +259,11 @@ class C17(Check):
         "transcription of the statistics / md5 hashes over the current window contents, and every fingerprint the "
         "implementation judged or trained on is compared field by field (exact rationals) with it",
         "Treg rule conditions are total boolean functions of (response, record) without side effects",
-        "memory pruning at capacity (wall-clock ordered) is modelled as an arbitrary 'forget' operation",
+        "memory: store (with pruning of the least recently accessed signature at capacity), import_signatures, prune_old, "
+        "recall/touch and direct list edits are modelled; the clock memory.py reads is rebound to a virtual clock and the "
+        "ThreatSignature name used by ImmuneSystem.inspect to a constructor that passes created_at/last_accessed explicitly "
+        "(their default_factory is bound to the wall clock at import); from_dict leaves last_accessed on the wall clock, "
+        "modelled as later than every virtual time in import order; recall_count and violation_types are not modelled",
     ]
     ASSUMPTIONS = [
         "profile bounds and fingerprint features are finite, non-NaN doubles",
@@ -440,6 +479,26 @@ class C17(Check):
             out.append([rng.choice([0, 1, 2, 2, 2, 3, 3]), c])
         return out
 
+    def _maintenance(self, rng, hashes=None):
+        """one memory-maintenance operation (ImmuneMemory's public mutators + the clock)"""
+        def other():
+            vh, sh = (rng.choice([1, 2, 7, 9]), rng.choice([1, 2, 8, 9])) if hashes is None or rng.random() < 0.7 else hashes
+            return [rng.choice([0, 0, 1]), vh, sh, rng.choice([2, 3, 2, 1]), rng.choice([0, 1, 2, 3])]
+        k = rng.random()
+        if k < 0.2:
+            return ["advance", rng.choice([1, 10, 100, 3600])]
+        if k < 0.45:
+            return ["pruneold", rng.choice([0, 0, 5, 50, 1000, -5])]
+        if k < 0.6:
+            return ["store", other()]
+        if k < 0.8:
+            return ["import", [other() + [rng.choice([0, 0, 50, 500, 5000])] for _ in range(rng.choice([1, 1, 2, 3]))]]
+        if k < 0.88:
+            return ["touch", other()[:3]]
+        if k < 0.94:
+            return ["forget", rng.choice([0, 0, 1, 2])]
+        return ["clearmem"]
+
     def _history(self, rng, prof, rep, anergy, tol):
         ops = []
         cur_prof = prof           # None when unknown (after training we probe instead)
@@ -447,6 +506,17 @@ class C17(Check):
         target = rng.choice([3, 5, 8, 11, 14])
         while len(ops) < target:
             k = rng.random()
+            if rng.random() < 0.12:
+                ops.append(self._maintenance(rng))
+                continue
+            if trained is None and cur_prof is not None and rng.random() < 0.1:
+                # a threat is confirmed and remembered, handled, aged out / displaced by maintenance, then seen once more
+                p = self._pep_for(rng, cur_prof, nviol=rng.choice([1, 2]), canary_mode="none")
+                ops += [["flag", True], ["inspect", p], ["reset"]]
+                for _ in range(rng.choice([1, 2, 3, 4])):
+                    ops.append(self._maintenance(rng, hashes=(p["vh"], p["sh"])))
+                ops.append(["inspect", p])
+                continue
             if trained is not None and k < 0.45:
                 ops.append(["inspect", self._probe_after_train(rng, trained, tol) if rng.random() < 0.8 else trained])
             elif trained is None and cur_prof is not None and k < 0.25:       # anomaly streak
@@ -569,6 +639,11 @@ class C17(Check):
                 ops.append(["w_canary", rng.random() < 0.3])
             for _ in range(rng.choice([1, 1, 2, 3])):
                 ops.append(["w_inspect"])
+            if rng.random() < 0.3:
+                ops.append(["reset"])
+                for _ in range(rng.choice([1, 2, 3])):
+                    ops.append(self._maintenance(rng))
+                ops.append(["w_inspect"])
             good(rng.choice([size, size, size + 2, size - 1, 1]))
             if rng.random() < 0.2:
                 ops.append(["w_canary", True])
@@ -577,7 +652,8 @@ class C17(Check):
                 ops.append(["w_train"])
                 ops.append(["w_inspect"])
         return {"rules": self._rules(rng) if rng.random() < 0.4 else [], "stab": 100, "tcell": None, "record": True,
-                "n": rng.choice([10, 3, 1]), "tmin": None, "tol": 2.0, "vt": 0.5, "win": [minobs, size], "ops": ops}
+                "n": rng.choice([10, 3, 1]), "tmin": None, "tol": 2.0, "vt": 0.5, "win": [minobs, size], "ops": ops,
+                "cap": rng.choice([1000, 1000, 2, 1])}
 
     def gen_cases(self, rng, n):
         out = []
@@ -599,7 +675,7 @@ class C17(Check):
                     "record": rng.random() < 0.9,
                     "n": nn, "tmin": rng.choice([None, None, None, nn + 1, 0, 1]),
                     "tol": tol, "vt": rng.choice([0.5, 0.5, 0.0, -1.0] if rng.random() < 0.2 else [0.5, 0.0]),
-                    "win": [3, 6]}
+                    "win": [3, 6], "cap": rng.choice([1000, 1000, 1000, 1, 2, 3, 0])}
             case["ops"] = self._history(rng, prof, rep, anergy, tol)
             out.append(case)
         return out
@@ -629,6 +705,19 @@ class C17(Check):
                     continue
                 out.append({"rules": [], "stab": 100, "tcell": None, "record": True, "n": 3, "tmin": None, "tol": 2.0,
                             "vt": 0.5, "win": [1, 2], "ops": [list(g), ["w_train"]] + [list(o) for o in combo]})
+        # memory maintenance: a flagged anomaly is confirmed and remembered, the operator resets the watcher, then
+        # every sequence of maintenance operations followed by the same anomaly seen once more
+        other = [1, 7, 7, 2, 2]
+        maint = [["advance", 100], ["pruneold", 0], ["pruneold", 50], ["store", other], ["import", [other + [0]]],
+                 ["touch", [0, 1, 1]], ["inspect", one]]
+        for n in range(1, (5 if self.tier == "quick" else 6)):
+            for combo in itertools.product(maint, repeat=n):
+                if combo[-1][0] != "inspect":
+                    continue
+                for cap in ((1000,) if n > 2 else (1000, 1)):
+                    out.append({"rules": [], "stab": 100, "tcell": {"prof": prof, "rep": 3, "anergy": 5}, "record": True, "n": 10,
+                                "tmin": None, "tol": 2.0, "vt": 0.5, "win": [3, 6], "cap": cap,
+                                "ops": [["flag", True], ["inspect", one], ["reset"]] + [list(o) for o in combo]})
         return out
 
     # ------------------------------------------------------------------
@@ -719,6 +808,25 @@ class C17(Check):
         return self._cuts[key]
 
     def _run(self, case):
+        """Rebinds the clock memory.py reads (module attribute `datetime`) to a virtual clock, and the
+        ThreatSignature name ImmuneSystem.inspect constructs signatures with to one that passes the two
+        timestamp fields explicitly (their dataclass default_factory is bound to the wall clock at import)."""
+        from operon_ai.surveillance import memory as M, immune_system as IS
+        clock = VClock()
+        saved = (M.datetime, IS.ThreatSignature)
+
+        def stamped(**kw):
+            kw.setdefault("created_at", clock.utcnow())
+            kw.setdefault("last_accessed", clock.utcnow())
+            return M.ThreatSignature(**kw)
+        M.datetime = clock
+        IS.ThreatSignature = stamped
+        try:
+            return self._run_inner(case, clock, stamped)
+        finally:
+            M.datetime, IS.ThreatSignature = saved
+
+    def _run_inner(self, case, clock, ThreatSignature):
         """-> (observations, trace, cut): cut = index of the first model operation NOT executed because
         float rounding of a trained bound decides it (None = whole history executed)"""
         import statistics
@@ -727,7 +835,7 @@ class C17(Check):
         from operon_ai.surveillance.thymus import Thymus, BaselineProfile, SelectionResult
         from operon_ai.surveillance.tcell import TCell, ImmuneResponse
         from operon_ai.surveillance.treg import RegulatoryTCell, SuppressionRule
-        from operon_ai.surveillance.memory import ThreatSignature
+        from operon_ai.surveillance.memory import ImmuneMemory
 
         mops, intern, _aops, _table = self._resolve(case)
         pure_api = case["tcell"] is None and all(o[0] in API_OPS for o in case["ops"])
@@ -754,7 +862,8 @@ class C17(Check):
         immune = ImmuneSystem(min_training_samples=case["n"], min_observations=case["win"][0],
                               window_size=case["win"][1],
                               thymus=Thymus(tolerance=case["tol"], variance_threshold=case["vt"]),
-                              treg=RegulatoryTCell(rules=rules, stability_threshold=case["stab"]))
+                              treg=RegulatoryTCell(rules=rules, stability_threshold=case["stab"]),
+                              memory=ImmuneMemory(capacity=case.get("cap", 1000)))
         if case.get("tmin") is not None:
             immune.thymus.min_training_samples = case["tmin"]
         immune.register_agent(AID)
@@ -811,7 +920,8 @@ class C17(Check):
 
         def mem_list():
             return [[0 if s.agent_id == AID else 1, self._hid(s.vocabulary_hash, intern), self._hid(s.structure_hash, intern),
-                     lv.index(s.threat_level), ac.index(s.effective_response)] for s in immune.memory.signatures]
+                     lv.index(s.threat_level), ac.index(s.effective_response), clock.secs(s.created_at),
+                     clock.secs(s.last_accessed)] for s in immune.memory.signatures]
 
         def state_obs():
             t = immune.tcells.get(AID)
@@ -823,6 +933,7 @@ class C17(Check):
             rec = immune.treg.records.get(AID)
             o += [-1, -1] if rec is None else [rec.clean_inspections, rec.total_inspections]
             m = mem_list()
+            o.append(clock.t)
             o.append(len(m))
             for e in m:
                 o += e
@@ -830,7 +941,7 @@ class C17(Check):
 
         def before():
             t = immune.tcells.get(AID)
-            b = {"tcell": t is not None, "mem": mem_list()}
+            b = {"tcell": t is not None, "mem": mem_list(), "now": clock.t, "cap": immune.memory.capacity}
             if t is not None:
                 b.update(prof=snap_prof(t.profile), rep=t.repeated_anomaly_threshold, anergy_thr=t.anergy_threshold,
                          manual=bool(t.manual_flag), impl_anergic=bool(t.is_anergic), tid=id(t))
@@ -857,7 +968,7 @@ class C17(Check):
                 cut = mi
                 break
             mi += 1
-            ev = {"op": mo[0], "before": before()}
+            ev = {"op": mo[0], "before": before(), "args": mo[1:]}
             row = []
             if mo[0] in ("inspect", "train"):
                 pepd = mo[1]               # for window operations: the REFERENCE fingerprint of the current window
@@ -915,6 +1026,31 @@ class C17(Check):
                 if 0 <= mo[1] < len(immune.memory.signatures):
                     del immune.memory.signatures[mo[1]]
                 row = [6]
+            elif mo[0] == "clearmem":
+                immune.memory.signatures.clear()
+                row = [10]
+            elif mo[0] == "import":
+                # data in the export format, produced by the export path of a feed memory
+                feed = ImmuneMemory()
+                for ag, vh, sh, l, a, created in mo[1]:
+                    feed.signatures.append(ThreatSignature(
+                        agent_id=AID if ag == 0 else "b", vocabulary_hash=hstr(vh), structure_hash=hstr(sh),
+                        violation_types=(), threat_level=lv[l], effective_response=ac[a],
+                        created_at=CLOCK_BASE + timedelta(seconds=created)))
+                immune.memory.import_signatures(feed.export_signatures())
+                row = [11]
+            elif mo[0] == "pruneold":
+                immune.memory.prune_old(timedelta(seconds=mo[1]))
+                row = [12]
+            elif mo[0] == "advance":
+                clock.t += mo[1]
+                row = [13]
+            elif mo[0] == "touch":
+                ag, vh, sh = mo[1]
+                immune.memory.recall(ThreatSignature(agent_id=AID if ag == 0 else "b", vocabulary_hash=hstr(vh),
+                                                     structure_hash=hstr(sh), violation_types=(), threat_level=lv[0],
+                                                     effective_response=ac[0]))
+                row = [14]
             elif mo[0] == "setclean":
                 rec = immune.treg.records.get(AID)
                 if rec is not None:
@@ -1007,7 +1143,18 @@ class C17(Check):
                 return "OResetNC"
             if k == "store":
                 ag, vh, sh, l, a = o[1]
-                return f"(OStore (mkSig {cz(ag)} {cz(vh)} {cz(sh)} {LV[l]} {AC[a]}))"
+                return f"(OStore (mkSig {cz(ag)} {cz(vh)} {cz(sh)} {LV[l]} {AC[a]} 0 0))"
+            if k == "clearmem":
+                return "OClearMem"
+            if k == "import":
+                return "(OImport " + clist([f"(mkSig {cz(ag)} {cz(vh)} {cz(sh)} {LV[l]} {AC[a]} {cz(cr)} 0)"
+                                            for ag, vh, sh, l, a, cr in o[1]]) + ")"
+            if k == "pruneold":
+                return f"(OPruneOld {cz(o[1])})"
+            if k == "advance":
+                return f"(OAdvance {cz(o[1])})"
+            if k == "touch":
+                return f"(OTouch {cz(o[1][0])} {cz(o[1][1])} {cz(o[1][2])})"
             if k == "forget":
                 return f"(OForget {cnat(o[1])})"
             if k == "setclean":
@@ -1042,7 +1189,7 @@ class C17(Check):
                      for (w, c), p in table.items()])
         lets = "".join(f"let {v} := {t} in\n   " for t, v in names.items())
         return (f"({lets}mkCase {rules} {cz(case['stab'])} {tc} {cbool(case['record'])} {cz(case['n'])} {cz(tmin)} "
-                f"{self._cqq(case['tol'])} {self._cqq(case['vt'])} ({cnat(case['win'][1])}, {cnat(case['win'][0])})\n    {tab}\n    {clist(terms)})")
+                f"{self._cqq(case['tol'])} {self._cqq(case['vt'])} {cz(case.get('cap', 1000))} ({cnat(case['win'][1])}, {cnat(case['win'][0])})\n    {tab}\n    {clist(terms)})")
 
     # ------------------------------------------------------------------
     # the property, on the implementation's trace
@@ -1054,12 +1201,22 @@ class C17(Check):
         false_alarms = 0      # reset_without_confirmation after an unconfirmed anomaly
         last_unconfirmed = False
         prev = None
-        external = []         # per memory entry: was it stored from outside with an action more than one step below its level?
+        ref = []              # the monitor's OWN memory: what is remembered per the documented semantics of each operation
+        imported = 0
+
+        def far_off(l, a):
+            return not (a == TABLE_ACTION[l] or a == TABLE_ACTION[l] - 1)
+
+        def ref_store(key, l, a, now, cap, ext=False):
+            if len(ref) >= cap and ref:
+                del ref[min(range(len(ref)), key=lambda k: ref[k]["acc"])]      # least recently accessed, first on ties
+            ref.append({"key": key, "l": l, "a": a, "created": now, "acc": (0, now), "ext": ext})
+
+        def ref_match(key):
+            return next((m for m in ref if m["key"] == key), None)
         for i, ev in enumerate(trace["events"]):
             b = ev["before"]
             op = ev["op"]
-            if len(external) != len(b["mem"]):
-                external = [False] * len(b["mem"])       # (defensive; the bookkeeping below keeps them aligned)
             if op == "inspect" and not ev.get("raised") and b["tcell"]:
                 pep = ev["pep"]
                 lvl, act = ev["level"], ev["action"]
@@ -1085,7 +1242,13 @@ class C17(Check):
                     streak = 0
                 desens = false_alarms >= b["anergy_thr"]
                 canary_fail = pep["canary"] is not None and fr(pep["canary"]) < fr(b["prof"]["cmin"])
-                remembered = any(m[0] == 0 and m[1] == pep["vh"] and m[2] == pep["sh"] for m in b["mem"])
+                in_list = any(m[0] == 0 and m[1] == pep["vh"] and m[2] == pep["sh"] for m in b["mem"])
+                remembered = in_list and ref_match((0, pep["vh"], pep["sh"])) is not None
+                if ev["viol"] == [9] and not remembered:
+                    return Violation("C17/recalled-forgotten-threat",
+                                     f"op {i}: reported {LEVELS[lvl]}/{ACTIONS[act]} as 'recalled from immune memory' but no signature "
+                                     f"with these hashes is remembered (memory.signatures holds {[m[:3] for m in b['mem']]}, "
+                                     f"reference memory {[m['key'] for m in ref]})")
                 second = canary_fail or b["manual"] or streak >= b["rep"] or remembered
                 if (lvl >= 2 or act in (2, 3)) and not (viol and second):
                     what = "without a current baseline violation" if not viol else "without any second signal"
@@ -1108,7 +1271,7 @@ class C17(Check):
                 # action belongs to the reported level or is one step below it (unless the verdict was
                 # recalled from a signature stored from outside that was itself further off)
                 first = next((k for k, m in enumerate(b["mem"]) if m[0] == 0 and m[1] == pep["vh"] and m[2] == pep["sh"]), None)
-                from_outside = ev["viol"] == [9] and first is not None and external[first]
+                from_outside = ev["viol"] == [9] and first is not None and first < len(ref) and ref[first]["ext"]
                 if act != 4 and not from_outside and not (act == TABLE_ACTION[lvl] or act == TABLE_ACTION[lvl] - 1):
                     return Violation("C17/treg-more-than-one-step",
                                      f"op {i}: reported {LEVELS[lvl]}/{ACTIONS[act]}: the action is more than one step below the level's ({ACTIONS[TABLE_ACTION[lvl]]})")
@@ -1132,16 +1295,39 @@ class C17(Check):
                                      f"op {i}: training used fingerprint {ev['impl_pep']} but the current window's is {ev['pep']}")
                 if ev.get("train") == 0:
                     streak, false_alarms, last_unconfirmed = 0, 0, False
-            # provenance of the memory entries
-            if op == "store":
-                l, a = ev["mem_after"][-1][3], ev["mem_after"][-1][4]
-                external.append(not (a == TABLE_ACTION[l] or a == TABLE_ACTION[l] - 1))
+            # the monitor's own memory, operation by operation
+            now, cap = b["now"], b["cap"]
+            if op == "inspect" and not ev.get("raised") and b["tcell"] and ev.get("pep") is not None:
+                key = (0, ev["pep"]["vh"], ev["pep"]["sh"])
+                if ev["viol"] == [9]:
+                    m = ref_match(key)
+                    if m is not None:
+                        m["acc"] = (0, now)
+                elif ev["level"] >= 2:
+                    ref_store(key, ev["level"], ev["action"], now, cap)
+            elif op == "store":
+                ag, vh, sh, l, a = ev["args"][0]
+                ref_store((ag, vh, sh), l, a, now, cap, ext=far_off(l, a))
             elif op == "forget":
-                if len(ev["mem_after"]) < len(external):
-                    k = next((k for k in range(len(ev["mem_after"])) if ev["mem_after"][k] != b["mem"][k]), len(ev["mem_after"]))
-                    del external[k]
-            elif len(ev["mem_after"]) > len(external):
-                external += [False] * (len(ev["mem_after"]) - len(external))
+                if 0 <= ev["args"][0] < len(ref):
+                    del ref[ev["args"][0]]
+            elif op == "clearmem":
+                del ref[:]
+            elif op == "import":
+                for ag, vh, sh, l, a, created in ev["args"][0]:
+                    if len(ref) < cap:
+                        ref.append({"key": (ag, vh, sh), "l": l, "a": a, "created": created, "acc": (1, imported), "ext": far_off(l, a)})
+                        imported += 1
+            elif op == "pruneold":
+                ref[:] = [m for m in ref if m["created"] > now - ev["args"][0]]
+            elif op == "touch":
+                m = ref_match(tuple(ev["args"][0]))
+                if m is not None:
+                    m["acc"] = (0, now)
+            if [list(m["key"]) + [m["l"], m["a"], m["created"]] for m in ref] != [m[:6] for m in ev["mem_after"]]:
+                return Violation("C17/memory-diverges-from-documented-semantics",
+                                 f"op {i} ({op}): memory.signatures is {[m[:6] for m in ev['mem_after']]} but the documented semantics give "
+                                 f"{[list(m['key']) + [m['l'], m['a'], m['created']] for m in ref]}")
             prev = ev
         return None
 
